@@ -31,6 +31,30 @@ def unwinding_cancels_events_on_all_paths(m, ca, pp):
     return res["paths"] > 0 and res["bad"] == 0
 
 
+def drop_callbacks_exact(rep, rule, m):
+    """A process that ends gives back exactly what it held: the drop callbacks of the holdable classes keep the pool's
+    bookkeeping exact (restriction of R-C07-1 / R-C07-5 to the drop callback, shared with C07's engine AFFINE)."""
+    from . import c07 as _c07
+    from ..report import Report as _Report
+    cache = getattr(m, "_c07_report", None)
+    if cache is None:
+        tmp = _Report("C07", "quick", m)
+        try:
+            _c07.rules(tmp, m)
+        except AnalysisBroken as e:
+            tmp.deferred_broken = getattr(tmp, "deferred_broken", []) + [str(e)]
+        m._c07_report = cache = tmp
+    rule.instance("resourcepool_drop_holder: conservation of in_use against the holdings (engine AFFINE, rule R-C07-1)")
+    hits = [f_ for f_ in cache.findings if f_["function"] in ("resourcepool_drop_holder",) and f_["rule"] in ("R-C07-1", "R-C07-2", "R-C07-5")]
+    if hits:
+        for f_ in hits:
+            rep.finding(rule, f_["function"], "drop:" + f_["construct"], "the drop callback run for an ending process: " + f_["message"],
+                        where=f_.get("where"))
+            rule.fail()
+    else:
+        rule.ok()
+
+
 def final_cancel_ok(m):
     """(ok, text): the unwinding routine ends with a wildcard cancel of every pending event whose SUBJECT is the process,
     on every path (shared with C05 / C07, whose eviction rules rely on it)"""
@@ -314,6 +338,12 @@ def rules(rep, m):
                   "blocked (stop) is taken out of every waiting list before its holdings are dropped, otherwise the freed "
                   "units are granted to the dying process and lost", floor=1)
     stop_ordering(rep, r6, m)
+
+    # R-C09-7 ------------------------------------------------------------
+    r7 = rep.rule("R-C09-7", "an ending process gives back exactly what it held: the pool's drop callback lowers the amount in "
+                  "use by the amount in the ending process's own record (read before the record is removed), so that the units "
+                  "are available to the waiters that are signalled next (shared with R-C07-1, engine AFFINE)", floor=1)
+    drop_callbacks_exact(rep, r7, m)
 
 
 def run(tier="quick"):
